@@ -1101,6 +1101,12 @@ class SVal:
         if callee == 'builtins.len' and len(bound) == 1 and bound[0][1][0] in ('tuple', 'list') and not any(
                 isinstance(x, tuple) and x and x[0] in ('when', 'each', 'star') for x in bound[0][1][1]):
             term = const(len(bound[0][1][1]))
+        # b''.join(f(x) for x in xs) is the concatenation the `for x in xs: buf += f(x)` loop builds
+        if name == 'join' and recv is not None and is_const(recv) and cval(recv) in (b'', '') and len(bound) == 1 and not e.keywords:
+            a_ = bound[0][1]
+            if a_[0] in ('list', 'tuple') and len(a_[1]) == 1 and isinstance(a_[1][0], tuple) and a_[1][0][0] == 'each' and not a_[1][0][3]:
+                ea = a_[1][0]
+                term = ('sum', ea[1], ea[2], ea[4])
         # a small literal table read with .get(key, default) is the chain of conditionals it abbreviates
         if name == 'get' and recv is not None and recv[0] == 'dict' and 1 <= len(bound) <= 2 and 0 < len(recv[1]) <= 24 \
                 and all(isinstance(x, tuple) and len(x) == 2 and x[0][0] in ('const', 'global') for x in recv[1]) \
